@@ -16,7 +16,7 @@ m = {
   "source_commits": list(reversed(hooks)),
   "add_only": True},
  "engines": [{"name": "gvc", "path": "/verif/engine", "serves_properties": sorted(claims['checks'].keys()),
-   "kind_free_text": "own verification-condition generator: forward symbolic execution of go/ssa (NaiveForm) of /repo's working tree against //@ contracts (requires/ensures/loop invariants/ghost state/monitors/ownership modes/blocking effects), one SMT-LIB query per obligation and path, discharged by z3 5.1.0 / z3 4.8.12 / cvc5 1.0.3; counterexamples replayed on the real code through go test -overlay"}],
+   "kind_free_text": "own verification-condition generator: forward symbolic execution of go/ssa (NaiveForm) of /repo's working tree against //@ contracts (requires/ensures/loop invariants/ghost state/monitors/ownership modes/blocking effects), one SMT-LIB query per obligation and path, discharged by z3 5.1.0 / z3 4.8.12 / cvc5 1.0.3; failed obligations are turned into failing inputs by bounded witness searches (/verif/harness, injected through go test -overlay) on the real code; /verif/baseline.json holds name/anchor resolution hints only"}],
  "checks": [], "notes": claims.get('notes', ''), "not_applicable": []}
 for p in props:
     c = claims['checks'].get(p['id'])
@@ -30,7 +30,7 @@ for p in props:
          "engine": "gvc",
          "level_claimed": {"category": c['category'], "text": c['text'], "design_ref": c.get('design_ref', 'DESIGN.md section 4, ' + p['id'])},
          "level_note": c['note'],
-         "technique": c.get('technique', 'contract-based deductive verification: weakest-precondition style VCs generated from go/ssa of the real code, discharged by z3/cvc5')})
+         "technique": c.get('technique', 'contract-based deductive verification: verification conditions generated from go/ssa of the real code against //@ contracts, discharged by z3/cvc5 (deciding step); a failed obligation is replayed by a bounded witness search on the real code (go test -overlay); a function whose contract no longer matches the code (contract drift) is decided by that bounded search where it is an exhaustive small-scope enumeration (labelled bounded, never counted as proved), otherwise the drift is reported')})
     else:
         m['not_applicable'].append({"property_id": p['id'], "reason": claims['not_applicable'].get(p['id'], "contracts specified in DESIGN.md section 4 but the check is not built yet")})
 json.dump(m, open(f'{V}/MANIFEST.json', 'w'), indent=1)
